@@ -41,7 +41,7 @@ def gen_package(rng, nm=None, nap=None, nw=None, nfilt=None, positive=True):
             fl.append(list(acc))
             acc = [x + b * rng.dyadic(0.0, 1.0, 6) for x, b in zip(acc, base)]
         er = [[x * rng.dyadic(0.001, 0.2, 8) for x in row] for row in fl]
-        seds[n] = dict(flux=fl, err=er, order=rng.choice(['incr', 'decr']), stored=rng.choice(['incr', 'decr']))     # order: as handed to SED.write; stored: as it lies in the file
+        seds[n] = dict(flux=fl, err=er, order=rng.choice(['incr', 'decr']), stored=rng.choice(['incr', 'decr']), columns=rng.choice(['standard', 'standard', 'reordered']))     # order: as handed to SED.write; stored: as it lies in the file
     filters = []
     for k in range(nfilt or rng.randint(1, 3)):
         lo, hi = nus[0], nus[-1]
@@ -179,6 +179,22 @@ def store_decreasing(path):
         h.flush()
 
 
+def reorder_columns(path):
+    """the documentation of the package format says the order of the columns is not important: rewrite a written SED file with
+    FREQUENCY before WAVELENGTH and an extra STELLAR_FLUX column (in another unit) in front of TOTAL_FLUX / TOTAL_FLUX_ERR"""
+    import numpy as np
+    from astropy.io import fits
+    with fits.open(path, memmap=False) as h:
+        def col(hdu, name, newname=None, unit=None, scale=1.0):
+            c = hdu.columns[name]
+            return fits.Column(name=newname or c.name, format=c.format, unit=unit or c.unit, dim=c.dim, array=np.array(hdu.data[name]) * scale)
+        w, a, sd = h['WAVELENGTHS'], h['APERTURES'], h['SEDS']
+        h1 = fits.BinTableHDU.from_columns([col(w, 'FREQUENCY'), col(w, 'WAVELENGTH')], header=None, name='WAVELENGTHS')
+        h3 = fits.BinTableHDU.from_columns([col(sd, 'TOTAL_FLUX', 'STELLAR_FLUX', 'ergs/cm^2/s', 0.5), col(sd, 'TOTAL_FLUX'), col(sd, 'TOTAL_FLUX_ERR')], name='SEDS')
+        out = fits.HDUList([h[0].copy(), h1, a.copy(), h3])
+        out.writeto(path, overwrite=True)
+
+
 def write_v1(d, pkg, logd_step=0.02):
     os.mkdir(os.path.join(d, 'seds'))
     for n in pkg['names']:
@@ -186,6 +202,8 @@ def write_v1(d, pkg, logd_step=0.02):
         make_sed(pkg, n).write(p)
         if pkg['seds'][n].get('stored') == 'decr':
             store_decreasing(p)
+        if pkg['seds'][n].get('columns') == 'reordered':
+            reorder_columns(p)
     write_conf(d, pkg['aps'] is not None, logd_step=logd_step)
     write_params(d, pkg)
 
